@@ -128,6 +128,7 @@ type Frame struct {
 	useResult      Val
 	useSite        string
 	useCallerGhost bool
+	useIface       string // trusted interface-method contract being used: "<type>.<method>"
 	// contract proof
 	proveTarget *ssa.Function
 	iters       map[ssa.Value]*Iter
